@@ -294,7 +294,10 @@ fn enum_items() -> Vec<String> {
         v.push(char::from_u32(c).unwrap().to_string());
     }
     // string kind x introducer x terminator x payload class
-    let payloads = ["", "plain text", "0;title with ; and 123", "\n\r\t\x08\x0c", "héllo 世界 \u{a0}", "[31mX\x0e", "1;2$q#1;2;3", "\u{7f}\u{7f}", "?1049h", "P]X^_"];
+    let many33 = format!("{}qAB\nC", "1;".repeat(33));
+    let many40 = format!("?{}|x\ry", ";".repeat(40));
+    let many32 = format!("{}$qz", "7;".repeat(32));
+    let payloads = ["", "plain text", "0;title with ; and 123", "\n\r\t\x08\x0c", "héllo 世界 \u{a0}", "[31mX\x0e", "1;2$q#1;2;3", "\u{7f}\u{7f}", "?1049h", "P]X^_", many33.as_str(), many40.as_str(), many32.as_str()];
     for (i7, i8) in [("\x1b]", "\u{9d}"), ("\x1bP", "\u{90}"), ("\x1bX", "\u{98}"), ("\x1b^", "\u{9e}"), ("\x1b_", "\u{9f}")] {
         for intro in [i7, i8] {
             for term in ["\x1b\\", "\u{9c}", "\x07"] {
@@ -321,7 +324,7 @@ pub fn run(env: &Env) -> PropRun {
         "enum-items",
         ni * states.len(),
         true,
-        "every CSI final 0x40-0x7E x {ESC [, U+009B} x 5 parameter shapes x {unimplemented plain, <, =, >, ? (non h/l), each intermediate except the DECSTR spelling}; every marker (<, =, >, ?) combined with every intermediate and every final (? with mode-number parameter lists); ESC x intermediates x finals outside {#8, (x, )x}; bare ESC finals outside the implemented set; every unassigned C0/C1; 5 string kinds x 7/8-bit introducer x ST/U+009C/BEL x 10 payload classes - each from 4 prior states",
+        "every CSI final 0x40-0x7E x {ESC [, U+009B} x 5 parameter shapes x {unimplemented plain, <, =, >, ? (non h/l), each intermediate except the DECSTR spelling}; every marker (<, =, >, ?) combined with every intermediate and every final (? with mode-number parameter lists); ESC x intermediates x finals outside {#8, (x, )x}; bare ESC finals outside the implemented set; every unassigned C0/C1; 5 string kinds x 7/8-bit introducer x ST/U+009C/BEL x 13 payload classes (incl. headers of 32, 33 and 40 parameters) - each from 4 prior states",
         &|i| {
             let mut c = Case::new(7, 4, None).feed(states[i / ni]);
             c.tail = vec![items[i % ni].clone()];
